@@ -221,6 +221,10 @@ def run_scenario(chk, sc, cfgseed, ndims):
             a, b = getattr(pk, attr, "<missing>"), getattr(fresh, attr)
             if core.jdump(a) != core.jdump(b):
                 return "unpickled reader attribute %s = %r, a fresh reader has %r" % (attr, a, b)
+        # every attribute either reader holds (derived ones too: box centres, global grids, box arrays, ghost map), bit for bit
+        dv = deep_diff(vars(pk), vars(fresh), "")
+        if dv:
+            return "unpickled reader differs from a fresh reader of the same plotfile: %s" % dv
         for l in range(len(A["lev"])):
             for key in ("indexes", "files", "offsets"):
                 if core.jdump(pk.cells[l][key]) != core.jdump(fresh.cells[l][key]):
@@ -239,6 +243,48 @@ def run_scenario(chk, sc, cfgseed, ndims):
     if alpha.tree_digest(d) != before:
         return "the input plotfile was modified"
     return None
+
+
+def deep_diff(a, b, where):
+    """None, or where two attribute trees differ (floats compared by bits, nan = nan of the same bits)."""
+    if isinstance(a, dict) and isinstance(b, dict):
+        if sorted(map(repr, a)) != sorted(map(repr, b)):
+            return "%s: keys %r vs %r" % (where or "attributes", sorted(map(repr, a))[:12], sorted(map(repr, b))[:12])
+        for k in a:
+            r = deep_diff(a[k], b[k], "%s[%r]" % (where, k) if where else str(k))
+            if r:
+                return r
+        return None
+    if isinstance(a, np.ndarray) or isinstance(b, np.ndarray):
+        a, b = np.asarray(a), np.asarray(b)
+        if a.shape != b.shape or a.dtype != b.dtype:
+            return "%s: array %r %s vs %r %s" % (where, a.shape, a.dtype, b.shape, b.dtype)
+        if a.dtype == object:
+            return deep_diff(list(a.ravel()), list(b.ravel()), where)
+        if a.tobytes() != b.tobytes():
+            bad = np.argwhere(~((a == b) | ((a != a) & (b != b))))
+            i = tuple(bad[0]) if len(bad) else ()
+            return "%s%r: %r vs %r" % (where, list(map(int, i)), a[i] if len(bad) else "bits", b[i] if len(bad) else "bits")
+        return None
+    if isinstance(a, (list, tuple)) and isinstance(b, (list, tuple)):
+        if len(a) != len(b) or type(a) != type(b):
+            return "%s: %s of %d vs %s of %d" % (where, type(a).__name__, len(a), type(b).__name__, len(b))
+        for i, (x, y) in enumerate(zip(a, b)):
+            r = deep_diff(x, y, "%s[%d]" % (where, i))
+            if r:
+                return r
+        return None
+    if isinstance(a, (float, np.floating)) and isinstance(b, (float, np.floating)):
+        if type(a) != type(b) or np.float64(a).tobytes() != np.float64(b).tobytes():
+            return "%s: %r vs %r" % (where, a, b)
+        return None
+    if isinstance(a, (int, str, bool, bytes, type(None), np.integer)) or isinstance(b, (int, str, bool, bytes, type(None), np.integer)):
+        if type(a) != type(b) or a != b:
+            return "%s: %r vs %r" % (where, a, b)
+        return None
+    if type(a) != type(b):
+        return "%s: a %s vs a %s" % (where, type(a).__name__, type(b).__name__)
+    return None          # other objects (none expected): not compared
 
 
 def option_sets_phase(chk):
